@@ -140,7 +140,10 @@ CLAIMS = {
  "C03": dict(
    text="Deductive proof from the real source of gen.pre_multisetup (the reference/roving split made when a PreGER object is built and after every preprocessing step): every dataset is split into "
         "'ref' = the listed reference channels in the listed order and 'mov' = the remaining channels in ascending order, every channel's samples intact (enumeration lemmas; datasets enumerated: 2; channel counts, "
-        "reference lists and lengths symbolic). The identification clause (multi-setup SSI returns the global frequencies, damping and shapes - references first, then each setup's roving sensors - independent of "
+        "reference lists and lengths symbolic). In the thorough tier additionally the structure of ssi.SSI_multi_setup at the matrix-term level (2 setups, everything else symbolic, about ten minutes): "
+        "one Hankel matrix per setup of [references; roving] with that setup's references, reference / roving rows of each observability matrix selected with that setup's own stride, "
+        "roving part re-based on the first setup's reference block, global observability matrix interleaved per block as references then each setup's roving rows in setup order, realisation by the "
+        "one-block shift. The identification clause (multi-setup SSI returns the global frequencies, damping and shapes - references first, then each setup's roving sensors - independent of "
         "per-setup gains) is a numerical theorem and is checked only by a bounded stand-in on noise-free multi-setup data through MultiSetup_PreGER (labelled bounded, not counted as proved).",
    note="Mixed level: proof for the split clause, bounded for the identification clause.",
    design="6 (C03)", technique="contract-based deductive verification (pyvc AST->VC, z3) for the split; bounded native stand-in for the identification theorem"),
